@@ -1,3 +1,1181 @@
-import ElfioVerif.Model.Writer
+/-
+C06 — saving is deterministic and idempotent.
+
+FINDING F13 (open, machine-checked): `save_twice_witness` (+ `_offsets`, `_byte`): for the object of
+DESIGN.md (`.data` 11 bytes align 8 + `.bss` NOBITS align 8 in one PT_LOAD, ELF64 LSB), built with
+the model's API functions, both saves succeed and their bytes differ (`.shstrtab` at 4112, then 4107).
+
+Proved:
+ * `save_twice_no_segments` — for every object without segments (any class/byte order) a successful
+   `save` returns a result on which `save` returns *the same result* again (loose-section layout
+   `looseSpec_idem`, header preparation `saveHdr0_idem`, residency).
+ * `save_twice` / `save_idempotent_on_settled` — ELF64, flat or nested segments, no segment at file
+   offset 0: under the side conditions `ResaveOk` (every segment start ≠ 0; no address-less
+   NOBITS/empty member behind a non-zero alignment gap — exactly the F13 trigger,
+   `GapBeforeAddresslessNobits`), a second `save` that succeeds returns the same result.  Ladder:
+   `stepCore_resave` (the address-driven branch recomputes the recorded cursor) → `wsdStep_resave` →
+   `wsdLoop_resave` → `layoutSegment_resave` → `segRun_resave` (lock-step re-run on the final
+   sections), with ordering / alignment / put-back idempotence from Lemmas/Save.
+Not proved: ELF32 (address truncation); objects with a segment at file offset 0 (typical *loaded*
+executables: the first PT_LOAD — the `orderFront` pass then reorders); that the second save cannot
+abort (it aborts only if offsets wrap around 2^64: hypothesis `r2.ok`); `save_load_save` (stated as
+`SaveLoadSaveStatement`: needs a congruence of `save` under the loader's re-representation of
+sections plus `members_recomputed`).
+-/
+import ElfioVerif.Lemmas.Save
+import ElfioVerif.Props.C03
+import ElfioVerif.Props.C05
+set_option linter.unusedSimpArgs false
 namespace ElfioVerif.C06
+open Gen
+open Sv
+
+/-! ### F13, machine-checked: a second save of the same object gives different bytes -/
+
+def updSec (o : Obj) (i : Nat) (f : SecBuf → SecBuf) : Obj :=
+  match o.secs[i]? with | some b => { o with secs := o.secs.set i (f b) } | none => o
+def updSecM (o : Obj) (i : Nat) (f : SecBuf → M SecBuf) : M Obj :=
+  match o.secs[i]? with
+  | some b => do let b' ← f b; pure { o with secs := o.secs.set i b' }
+  | none => pure o
+def updSeg (o : Obj) (j : Nat) (f : Seg → Seg) : Obj :=
+  match o.segs[j]? with | some g => { o with segs := o.segs.set j (f g) } | none => o
+
+/-- the object of DESIGN.md F13, built with the model's API functions: ELF64 LSB;
+    `.data` (PROGBITS, WA, 11 bytes, align 8) and `.bss` (NOBITS, WA, 32 bytes, align 8), no explicit
+    addresses, both members of one `PT_LOAD` (align 4096, vaddr 0x400000) -/
+def f13Obj : M Obj := do
+  let o ← create {} .c64 .lsb
+  let o ← sectionsAdd o [0x2e, 0x64, 0x61, 0x74, 0x61]            -- ".data"
+  let o := updSec o 2 fun b => { b with stype := 1, flags := 3, addrAlign := 8 }
+  let o ← updSecM o 2 fun b => b.setData (some [1, 2, 3, 4, 5, 6, 7, 8, 9, 10, 11]) 11
+  let o ← sectionsAdd o [0x2e, 0x62, 0x73, 0x73]                  -- ".bss"
+  let o := updSec o 3 fun b => ({ b with stype := 8, flags := 3, addrAlign := 8 }).setSize 32
+  let o := segmentsAdd o
+  let o := updSeg o 0 fun g =>
+    { g with stype := 1, flags := 6, align := 4096, vaddr := 0x400000, paddr := 0x400000 }
+  let o := updSeg o 0 fun g => segAddSection g 2 8
+  let o := updSeg o 0 fun g => segAddSection g 3 8
+  pure o
+
+/-- first `save()` of the object (fresh, unbudgeted stream) -/
+def f13Save1 : M SaveRes := do let o ← f13Obj; save o {}
+/-- second `save()` of the same object (again into a fresh stream) -/
+def f13Save2 : M SaveRes := do let r ← f13Save1; save r.obj {}
+
+def offsetsOf (r : M SaveRes) : Option (Bool × List Nat) :=
+  match r with | .ok r => some (r.ok, r.obj.secs.map (·.offset.toNat)) | .error _ => none
+def byteAt (r : M SaveRes) (i : Nat) : Option UInt8 :=
+  match r with | .ok r => r.os.content[i]? | .error _ => none
+
+/-- section offsets (null, `.shstrtab`, `.data`, `.bss`) after the first and after the second save:
+    the alignment gap in front of the address-less `.bss` (4107 → 4112) advances the cursor only the
+    first time -/
+theorem save_twice_witness_offsets :
+    offsetsOf f13Save1 = some (true, [0, 4112, 4096, 4112]) ∧
+    offsetsOf f13Save2 = some (true, [0, 4107, 4096, 4107]) := by
+  constructor <;> decide +kernel
+
+/-- byte 4232 of the file = low byte of `sh_offset` of section 1 (`.shstrtab`; the section header
+    table is at 4144 both times): 0x10 (4112) the first time, 0x0b (4107) the second -/
+theorem save_twice_witness_byte : byteAt f13Save1 4232 = some 16 ∧ byteAt f13Save2 4232 = some 11 := by
+  constructor <;> decide +kernel
+
+/-- **F13** : both saves succeed and their bytes differ. -/
+theorem save_twice_witness :
+    ∃ o r1 r2, f13Obj = .ok o ∧ save o {} = .ok r1 ∧ r1.ok = true ∧
+      save r1.obj {} = .ok r2 ∧ r2.ok = true ∧ r1.os.content ≠ r2.os.content := by
+  obtain ⟨o1, o2⟩ := save_twice_witness_offsets
+  obtain ⟨b1, b2⟩ := save_twice_witness_byte
+  cases ho : f13Obj with
+  | error e => simp [f13Save1, ho, offsetsOf, bind, Except.bind] at o1
+  | ok o =>
+    have e1 : f13Save1 = save o {} := by simp [f13Save1, ho, bind, Except.bind]
+    cases h1 : save o {} with
+    | error e => rw [e1, h1] at o1; simp [offsetsOf] at o1
+    | ok r1 =>
+      have e2 : f13Save2 = save r1.obj {} := by simp [f13Save2, e1, h1, bind, Except.bind]
+      cases h2 : save r1.obj {} with
+      | error e => rw [e2, h2] at o2; simp [offsetsOf] at o2
+      | ok r2 =>
+        rw [e1, h1] at o1 b1; rw [e2, h2] at o2 b2
+        simp only [offsetsOf, Option.some.injEq, Prod.mk.injEq] at o1 o2
+        simp only [byteAt] at b1 b2
+        refine ⟨o, r1, r2, rfl, h1, o1.1, h2, o2.1, ?_⟩
+        intro e; rw [e, b2] at b1; cases b1
+
+/-! ### saving twice: objects without segments -/
+
+open C03 in
+/-- the header preparation of `save` is idempotent: run on the header a previous save left, it
+    reproduces the header that save started its layout from -/
+theorem saveHdr0_idem (o : Obj) (hd : Bytes) (x : Nat) (hl : ehdrSize o.cls ≤ hd.length) :
+    saveHdr0 o (Hdr.set_shoff o.cls o.enc (saveHdr0 o hd) x) = saveHdr0 o hd := by
+  unfold saveHdr0
+  simp only
+  generalize o.cls = c at *
+  generalize o.enc = e at *
+  generalize o.segs.length % 65536 = m
+  generalize o.secs.length % 65536 = n
+  have r1 : ∀ h v, Hdr.set_phnum c e h v = HField.phnum.set c e h v := fun _ _ => rfl
+  have r2 : ∀ h v, Hdr.set_phoff c e h v = HField.phoff.set c e h v := fun _ _ => rfl
+  have r3 : ∀ h v, Hdr.set_shnum c e h v = HField.shnum.set c e h v := fun _ _ => rfl
+  have r4 : ∀ h v, Hdr.set_shoff c e h v = HField.shoff.set c e h v := fun _ _ => rfl
+  simp only [r1, r2, r3, r4]
+  -- first run
+  have la1 : ehdrSize c ≤ (HField.phnum.set c e hd m).length := by rw [hdr_set_length _ _ _ _ _ hl]; exact hl
+  generalize hp : (if m > 0 then (Hdr.e_ehsize c e (HField.phnum.set c e hd m)).toNat else 0) = p
+  have lb1 : ehdrSize c ≤ (HField.phoff.set c e (HField.phnum.set c e hd m) p).length := by
+    rw [hdr_set_length _ _ _ _ _ la1]; exact la1
+  have lc1 : ehdrSize c ≤ (HField.shnum.set c e (HField.phoff.set c e (HField.phnum.set c e hd m) p) n).length := by
+    rw [hdr_set_length _ _ _ _ _ lb1]; exact lb1
+  have lh0 : ehdrSize c ≤ (HField.shoff.set c e
+      (HField.shnum.set c e (HField.phoff.set c e (HField.phnum.set c e hd m) p) n) 0).length := by
+    rw [hdr_set_length _ _ _ _ _ lc1]; exact lc1
+  generalize ha1 : HField.phnum.set c e hd m = a1 at *
+  generalize hb1 : HField.phoff.set c e a1 p = b1 at *
+  generalize hc1 : HField.shnum.set c e b1 n = c1 at *
+  generalize hh0 : HField.shoff.set c e c1 0 = h0 at *
+  have lhT : ehdrSize c ≤ (HField.shoff.set c e h0 x).length := by rw [hdr_set_length _ _ _ _ _ lh0]; exact lh0
+  generalize hhT : HField.shoff.set c e h0 x = hT at *
+  have ne : ∀ {f g : HField}, f ≠ g → f.name ≠ g.name := fun hfg e => hfg (hfield_name_inj e)
+  -- e_phnum of hT is still m
+  have sA : slice hT (Spec.field (Spec.ehdrL c) HField.phnum.name).1 (Spec.field (Spec.ehdrL c) HField.phnum.name).2 =
+      encodeInt e (Spec.field (Spec.ehdrL c) HField.phnum.name).2 m := by
+    rw [← hhT, set_slice_other .shoff c e h0 x lh0 _ (hfield_valid .phnum c) (ne (by decide)),
+      ← hh0, set_slice_other .shoff c e c1 0 lc1 _ (hfield_valid .phnum c) (ne (by decide)),
+      ← hc1, set_slice_other .shnum c e b1 n lb1 _ (hfield_valid .phnum c) (ne (by decide)),
+      ← hb1, set_slice_other .phoff c e a1 p la1 _ (hfield_valid .phnum c) (ne (by decide)),
+      ← ha1, set_slice_same .phnum c e hd m hl]
+  have eA : HField.phnum.set c e hT m = hT := set_absorb .phnum c e hT m lhT sA
+  rw [eA]
+  -- e_ehsize is untouched by the layout setters, so the program header offset is the same
+  have hsz : Hdr.e_ehsize c e hT = Hdr.e_ehsize c e a1 := by
+    rw [← hhT, (hdr_set_frame .shoff c e h0 x lh0).2.2.2.2.2.2.2.1 (by decide),
+      ← hh0, (hdr_set_frame .shoff c e c1 0 lc1).2.2.2.2.2.2.2.1 (by decide),
+      ← hc1, (hdr_set_frame .shnum c e b1 n lb1).2.2.2.2.2.2.2.1 (by decide),
+      ← hb1, (hdr_set_frame .phoff c e a1 p la1).2.2.2.2.2.2.2.1 (by decide)]
+  have hp2 : (if m > 0 then (Hdr.e_ehsize c e hT).toNat else 0) = p := by
+    rw [hsz, ← hp]
+  rw [hp2]
+  have sB : slice hT (Spec.field (Spec.ehdrL c) HField.phoff.name).1 (Spec.field (Spec.ehdrL c) HField.phoff.name).2 =
+      encodeInt e (Spec.field (Spec.ehdrL c) HField.phoff.name).2 p := by
+    rw [← hhT, set_slice_other .shoff c e h0 x lh0 _ (hfield_valid .phoff c) (ne (by decide)),
+      ← hh0, set_slice_other .shoff c e c1 0 lc1 _ (hfield_valid .phoff c) (ne (by decide)),
+      ← hc1, set_slice_other .shnum c e b1 n lb1 _ (hfield_valid .phoff c) (ne (by decide)),
+      ← hb1, set_slice_same .phoff c e a1 p la1]
+  have eB : HField.phoff.set c e hT p = hT := set_absorb .phoff c e hT p lhT sB
+  rw [eB]
+  have sC : slice hT (Spec.field (Spec.ehdrL c) HField.shnum.name).1 (Spec.field (Spec.ehdrL c) HField.shnum.name).2 =
+      encodeInt e (Spec.field (Spec.ehdrL c) HField.shnum.name).2 n := by
+    rw [← hhT, set_slice_other .shoff c e h0 x lh0 _ (hfield_valid .shnum c) (ne (by decide)),
+      ← hh0, set_slice_other .shoff c e c1 0 lc1 _ (hfield_valid .shnum c) (ne (by decide)),
+      ← hc1, set_slice_same .shnum c e b1 n lb1]
+  have eC : HField.shnum.set c e hT n = hT := set_absorb .shnum c e hT n lhT sC
+  rw [eC, ← hhT]
+  rw [set_set .shoff c e h0 x 0 lh0, ← hh0, set_set .shoff c e c1 0 0 lc1]
+
+theorem orderedSegments_nil : orderedSegments [] = .ok [] := rfl
+
+/-- `save` of an object without segments, in closed form -/
+theorem save_noseg_eq {o : Obj} {os : OStream} {hd : Bytes} (hseg : o.segs = []) (hh : o.hdr = some hd)
+    (hf : os.fail = false) :
+    save o os = .ok (saveTail (preRes o) os (saveHdr0 (preRes o) hd) []
+      (saveLay0 (preRes o) (saveHdr0 (preRes o) hd)) []) := by
+  rw [save_eq, hh]
+  simp only [hf, Bool.false_eq_true, if_false]
+  have e : (preRes o).segs = [] := hseg
+  rw [e]
+  simp only [List.mapM_nil, pure_bind, orderedSegments_nil]
+  rfl
+
+/-- `saveTail` reads of the object only class, byte order, translation and stream, and of the
+    layout only what the loose-section pass makes of it -/
+theorem saveTail_congr {o o' : Obj} {os : OStream} {h0 : Bytes} {segs1 done : List Seg} {lay lay' : Layout}
+    (hc : o'.cls = o.cls) (he : o'.enc = o.enc) (ht : o'.trans = o.trans) (hs : o'.stream = o.stream)
+    (hl : layoutLoose o.cls (putBack segs1 done) lay'.secs 0 lay'.pos [] =
+      layoutLoose o.cls (putBack segs1 done) lay.secs 0 lay.pos []) :
+    saveTail o' os h0 segs1 lay' done = saveTail o os h0 segs1 lay done := by
+  unfold saveTail saveWrite
+  simp only [hc, he, ht, hs, hl]
+
+theorem preRes_id (o : Obj) (h : ∀ b ∈ o.secs, b.Settled) : preRes o = o := by
+  unfold preRes
+  rw [allResident_id _ _ _ _ _ h]
+  simp
+
+theorem preRes_settled (o : Obj) : ∀ b ∈ (preRes o).secs, b.Settled :=
+  allResident_settled _ _ _ _ [] (fun b hb => by cases hb)
+
+theorem saveHdr0_congr {o o' : Obj} (hc : o'.cls = o.cls) (he : o'.enc = o.enc)
+    (hg : o'.segs.length = o.segs.length) (hs : o'.secs.length = o.secs.length) (h : Bytes) :
+    saveHdr0 o' h = saveHdr0 o h := by
+  unfold saveHdr0
+  simp only [hc, he, hg, hs]
+
+/-- **save_twice_no_segments** : for an object without segments, a successful `save` leaves an
+    object on which `save` (into the same initial stream) does exactly the same again — same result
+    object, same stream, hence identical bytes.  (The loose-section layout is a function of types,
+    sizes, alignments and indices only; the header preparation is idempotent; every section is
+    resident after the first save.)  Hypothesis: the header buffer has the size of the class's ELF
+    header (true of every created or loaded object). -/
+theorem save_twice_no_segments {o : Obj} {os : OStream} {r : SaveRes} {hd : Bytes} (hseg : o.segs = [])
+    (hh : o.hdr = some hd) (hl : ehdrSize o.cls ≤ hd.length) (hs : save o os = .ok r) (hok : r.ok = true) :
+    save r.obj os = .ok r := by
+  obtain ⟨_, _, _, _, _, _, hf, _, _, _, _⟩ := save_ok_unfold hs hok
+  rw [save_noseg_eq hseg hh hf] at hs
+  injection hs with hs
+  subst hs
+  obtain ⟨_, eobj, _, _⟩ := saveTail_ok hok
+  -- names
+  generalize ho1 : preRes o = o1 at *
+  have hset1 : ∀ b ∈ o1.secs, b.Settled := by rw [← ho1]; exact preRes_settled o
+  have hc1 : o1.cls = o.cls := by rw [← ho1]; rfl
+  have hseg1 : o1.segs = [] := by rw [← ho1]; exact hseg
+  generalize hh0 : saveHdr0 o1 hd = h0 at *
+  generalize hlay : saveLay0 o1 h0 = lay0 at *
+  have hlsecs : lay0.secs = o1.secs := by rw [← hlay]; rfl
+  have hlpos : lay0.pos = savePos0 o1 h0 := by rw [← hlay]; rfl
+  -- the loose pass and the residency pass of the first save
+  obtain ⟨L, eL, fL⟩ := layoutLoose_frame o1.cls (putBack [] []) lay0.secs 0 lay0.pos []
+  simp only [List.reverse_nil, List.nil_append] at eL
+  rw [hlsecs] at fL
+  have hsetL : ∀ b ∈ L, b.Settled := fL.forall_right (fun a b h ha => Placed.settled h ha) hset1
+  have eS : tailSecs o1 [] lay0 [] = L := by
+    unfold tailSecs tailLoose
+    rw [eL, residentForSave_id _ _ _ _ _ hsetL]; rfl
+  have eSt : (residentForSave o1.cls o1.trans (tailLoose o1 [] lay0 []).1 { st := o1.stream } []).2.st = o1.stream := by
+    unfold tailLoose
+    rw [eL, residentForSave_id _ _ _ _ _ hsetL]
+  rw [eS, eSt] at eobj
+  -- the second save
+  generalize hT : saveTail o1 os h0 [] lay0 [] = T at *
+  have hseg' : T.obj.segs = [] := by rw [eobj]; rfl
+  have hh' : T.obj.hdr = some (tailHdr o1 h0 [] lay0 []) := by rw [eobj]
+  rw [save_noseg_eq hseg' hh' hf]
+  have hset' : ∀ b ∈ T.obj.secs, b.Settled := by rw [eobj]; exact hsetL
+  rw [preRes_id _ hset']
+  have ec : T.obj.cls = o1.cls := by rw [eobj]
+  have ee : T.obj.enc = o1.enc := by rw [eobj]
+  have et : T.obj.trans = o1.trans := by rw [eobj]
+  have es : T.obj.stream = o1.stream := by rw [eobj]
+  have esecs : T.obj.secs = L := by rw [eobj]
+  have eh : saveHdr0 T.obj (tailHdr o1 h0 [] lay0 []) = h0 := by
+    rw [saveHdr0_congr ec ee (by rw [hseg', hseg1]) (by rw [esecs, fL.1])]
+    unfold tailHdr
+    rw [← hh0]
+    exact saveHdr0_idem o1 hd _ (by rw [hc1]; exact hl)
+  rw [eh]
+  congr 1
+  refine (saveTail_congr ec ee et es ?_).trans hT
+  -- the loose pass is idempotent
+  show layoutLoose o1.cls (putBack [] []) T.obj.secs 0 (savePos0 T.obj h0) [] = _
+  have ep : savePos0 T.obj h0 = savePos0 o1 h0 := by unfold savePos0; rw [ec, ee]
+  rw [ep, esecs, hlsecs, hlpos, layoutLoose_eq, layoutLoose_eq]
+  have eL' : L = (looseSpec o1.cls (putBack [] []) o1.secs 0 (savePos0 o1 h0)).1 := by
+    rw [← eL, hlsecs, hlpos, layoutLoose_eq]; rfl
+  rw [eL', looseSpec_idem]
+
+/-- the byte-level reading: both saves succeed and write identical bytes -/
+theorem save_twice_no_segments_bytes {o : Obj} {os : OStream} {r : SaveRes} {hd : Bytes} (hseg : o.segs = [])
+    (hh : o.hdr = some hd) (hl : ehdrSize o.cls ≤ hd.length) (hs : save o os = .ok r) (hok : r.ok = true) :
+    ∃ r2, save r.obj os = .ok r2 ∧ r2.ok = true ∧ r2.os.content = r.os.content ∧
+      save r2.obj os = .ok r2 :=
+  ⟨r, save_twice_no_segments hseg hh hl hs hok, hok, rfl, save_twice_no_segments hseg hh hl hs hok⟩
+
+/-- non-vacuity: a created object with a `.text` section (no segments) meets the hypotheses and its
+    save succeeds -/
+def nosegObj : M Obj := do
+  let o ← create {} .c32 .msb
+  let o ← sectionsAdd o [0x2e, 0x74, 0x65, 0x78, 0x74]
+  let o := updSec o 2 fun b => { b with stype := 1, flags := 6, addrAlign := 16 }
+  updSecM o 2 fun b => b.setData (some [1, 2, 3, 4, 5]) 5
+
+example : (match nosegObj with
+    | .ok o => o.segs.isEmpty && (match o.hdr with | some hd => decide (ehdrSize o.cls ≤ hd.length) | none => false) &&
+        (match save o {} with | .ok r => r.ok | .error _ => false)
+    | .error _ => false) = true := by decide +kernel
+
+/-! ### saving twice: objects with segments -/
+
+/-- the F13 trigger, per member: a member without address that occupies no file space (NOBITS, or
+    empty) is placed behind a *non-zero* alignment gap -/
+def GapBeforeAddresslessNobits (sec : SecBuf) (pos : BitVec 64) : Prop :=
+  sec.addrSet = false ∧ (sec.stype = BitVec.ofNat 32 SHT_NOBITS ∨ sec.size = 0) ∧
+  wsd_gap_align (if wsd_align_zero sec.addrAlign then 1 else sec.addrAlign)
+    (wsd_error pos (if wsd_align_zero sec.addrAlign then 1 else sec.addrAlign)) ≠ 0
+
+theorem occupies_iff (sec : SecBuf) (hnn : wsd_is_null sec.stype = false) (generated addrSet : Bool) :
+    wsd_addr_branch generated addrSet sec.stype sec.size =
+      (!generated && addrSet && decide (sec.stype ≠ BitVec.ofNat 32 SHT_NOBITS) && decide (sec.size ≠ 0)) := by
+  have h2 : (BitVec.ofNat 32 SHT_NULL != sec.stype) = true := by
+    simp only [wsd_is_null, beq_eq_false_iff_ne, ne_eq] at hnn
+    simp only [bne_iff_ne, ne_eq]; exact hnn
+  unfold wsd_addr_branch
+  rw [h2, Bool.and_true]
+  congr 1
+  · congr 1
+    by_cases h : sec.stype = BitVec.ofNat 32 SHT_NOBITS
+    · simp [h]
+    · have : BitVec.ofNat 32 SHT_NOBITS ≠ sec.stype := fun e => h e.symm
+      simp [h, this]
+  · by_cases h : sec.size = 0
+    · simp [h]
+    · have h' : ¬ sec.size = 0#64 := h
+      have : ¬ (0#64 = sec.size) := fun e => h e.symm
+      simp [h', this]
+
+/-- **re-running the placing step on its own result** (ELF64): if `write_segment_data` placed a
+    not-yet-generated member `sec` from cursor `pos`, producing `sec'`, then running the step again
+    from the same cursor on `sec'` produces exactly the same outcome — the address-driven branch
+    recomputes the gap the alignment-driven branch chose — or aborts (only if the offsets wrapped
+    around 2^64), **provided** the member is not an address-less NOBITS/empty section behind a non-zero
+    alignment gap.  In that excluded case the second run takes no gap at all: F13. -/
+theorem stepCore_resave {g : Seg} {ss : BitVec 64} {sec sec' : SecBuf} {pos pos2 mem file mem' file' : BitVec 64}
+    (h : stepCore .c64 g ss sec false pos mem file = .placed sec' pos2 mem' file')
+    (hng : ¬ GapBeforeAddresslessNobits sec pos) :
+    stepCore .c64 g ss sec' false pos mem file = .placed sec' pos2 mem' file' ∨
+    stepCore .c64 g ss sec' false pos mem file = .abort := by
+  unfold stepCore at h
+  by_cases hnn : wsd_is_null sec.stype = true
+  · rw [if_pos hnn] at h; cases h
+  · rw [if_neg hnn] at h
+    have hnn' : wsd_is_null sec.stype = false := by simpa using hnn
+    cases hgap : stepGap g ss sec false pos file with
+    | none => rw [hgap] at h; cases h
+    | some gap =>
+      rw [hgap] at h
+      simp only [Bool.false_eq_true, if_false] at h
+      injection h with e1 e2 e3 e4
+      -- the placed section
+      rw [stepPlace_eq] at e1
+      have hst : sec'.stype = sec.stype := by rw [← e1]
+      have hsz : sec'.size = sec.size := by rw [← e1]
+      have hfl : sec'.flags = sec.flags := by rw [← e1]
+      have hset' : sec'.addrSet = true := by rw [← e1]
+      have hidx' : sec'.index = sec.index := by rw [← e1]
+      have hoff' : sec'.offset = if (sec.index != 0) = true then truncA .c64 (wsd_cursor_gap pos gap) else sec.offset := by
+        rw [← e1]
+      have hidem : stepPlace .c64 g ss sec' (wsd_cursor_gap pos gap) = sec' := by
+        rw [stepPlace_eq]
+        have h1 : (if sec'.addrSet = true then sec'.addr
+            else truncA .c64 (wsd_new_addr g.vaddr (wsd_cursor_gap pos gap) ss)) = sec'.addr := by
+          rw [hset']; rfl
+        have h2 : (if (sec'.index != 0) = true then truncA .c64 (wsd_cursor_gap pos gap) else sec'.offset) =
+            sec'.offset := by
+          rw [hidx', hoff']; split <;> rfl
+        rw [h1, h2]
+        clear h1 h2 hoff' hidx' hfl hsz hst e1
+        cases sec'
+        simp only at hset'
+        subst hset'
+        rfl
+      -- the second run's gap
+      have key : stepGap g ss sec' false pos file = some gap ∨ stepGap g ss sec' false pos file = none := by
+        unfold stepGap at hgap ⊢
+        rw [occupies_iff sec hnn'] at hgap
+        rw [occupies_iff sec' (by rw [hst]; exact hnn'), hset', hst, hsz]
+        simp only [Bool.not_false, Bool.true_and] at hgap ⊢
+        cases ha : sec.addrSet with
+        | true =>
+          rw [ha] at hgap
+          have ead : sec'.addr = sec.addr := by rw [← e1]; simp only [ha, if_true]
+          rw [ead]
+          simp only [Bool.true_and] at hgap
+          by_cases hocc : (decide (sec.stype ≠ BitVec.ofNat 32 SHT_NOBITS) && decide (sec.size ≠ 0)) = true
+          · rw [if_pos hocc] at hgap ⊢
+            exact Or.inl hgap
+          · rw [if_neg hocc] at hgap ⊢
+            simp only [wsd_align_branch, ha, Bool.not_false, Bool.not_true, Bool.and_false, Bool.false_eq_true,
+              if_false, Bool.true_and] at hgap ⊢
+            exact Or.inl hgap
+        | false =>
+          rw [ha] at hgap
+          simp only [Bool.false_and, Bool.false_eq_true, if_false, wsd_align_branch, Bool.not_false, Bool.and_true,
+            if_true, Option.some.injEq] at hgap
+          by_cases hocc : (decide (sec.stype ≠ BitVec.ofNat 32 SHT_NOBITS) && decide (sec.size ≠ 0)) = true
+          · rw [if_pos hocc]
+            -- address-driven branch on the address the first run computed
+            have ead : sec'.addr = wsd_new_addr g.vaddr (wsd_cursor_gap pos gap) ss := by
+              rw [← e1]; simp only [ha, Bool.false_eq_true, if_false, truncA]
+            rw [ead]
+            by_cases hlt : wsd_req_lt_cur (wsd_req_offset (wsd_new_addr g.vaddr (wsd_cursor_gap pos gap) ss) g.vaddr)
+                (wsd_cur_offset pos ss) = true
+            · rw [if_pos hlt]; exact Or.inr rfl
+            · rw [if_neg hlt]
+              left
+              congr 1
+              simp only [wsd_gap_addr, wsd_req_offset, wsd_new_addr, wsd_cursor_gap, wsd_cur_offset]
+              bv_omega
+          · rw [if_neg hocc]
+            simp only [wsd_align_branch, Bool.not_false, Bool.not_true, Bool.and_false, Bool.false_eq_true, if_false]
+            left
+            -- no file space: the first gap must have been zero
+            have hz : gap = 0 := by
+              apply Classical.byContradiction
+              intro hne
+              apply hng
+              refine ⟨ha, ?_, by rw [hgap]; exact hne⟩
+              simp only [Bool.and_eq_true, decide_eq_true_eq, not_and, Decidable.not_not] at hocc
+              by_cases h1 : sec.stype = BitVec.ofNat 32 SHT_NOBITS
+              · exact Or.inl h1
+              · exact Or.inr (hocc h1)
+            rw [hz]
+      unfold stepCore
+      rw [hst, if_neg hnn]
+      rcases key with k | k
+      · left
+        rw [k]
+        simp only [Bool.false_eq_true, if_false, hst, hsz, hfl, hidem, e2, e3, e4]
+      · right
+        rw [k]
+
+theorem stepCore_congr_seg {c : Cls} {g g' : Seg} (hv : g'.vaddr = g.vaddr) (ht : g'.stype = g.stype)
+    (ss : BitVec 64) (sec : SecBuf) (gen : Bool) (pos mem file : BitVec 64) :
+    stepCore c g' ss sec gen pos mem file = stepCore c g ss sec gen pos mem file := by
+  unfold stepCore stepGap stepPlace
+  rw [hv, ht]
+
+/-- run 2 is in step with run 1: it works on the final sections `F`, with the same cursor, flags
+    and counters -/
+structure Lock (F : List SecBuf) (s1 s2 : WsdSt) : Prop where
+  secs : s2.lay.secs = F
+  pos : s2.lay.pos = s1.lay.pos
+  gen : s2.lay.gen = s1.lay.gen
+  mem : s2.mem = s1.mem
+  file : s2.file = s1.file
+
+/-- sections that are generated already have their final form -/
+def Fut (F : List SecBuf) (st : WsdSt) : Prop :=
+  F.length = st.lay.secs.length ∧ ∀ (i : Nat), st.lay.gen[i]? = some true → F[i]? = st.lay.secs[i]?
+
+/-- no member meets the F13 trigger when it is placed -/
+def StepOk (st : WsdSt) (idx : BitVec 16) : Prop :=
+  ∀ sec, st.lay.secs[idx.toNat]? = some sec → st.lay.gen[idx.toNat]? = some false →
+    ¬ GapBeforeAddresslessNobits sec st.lay.pos
+
+def LoopOk (c : Cls) (g : Seg) (ss : BitVec 64) : List (BitVec 16) → WsdSt → Prop
+  | [], _ => True
+  | idx :: rest, st => StepOk st idx ∧ ∀ st', wsdStep c g ss st idx = .ok (some st') → LoopOk c g ss rest st'
+
+theorem applyOut_length {st st' : WsdSt} {i : Nat} {out : StepOut} (h : applyOut st i out = some st') :
+    st'.lay.secs.length = st.lay.secs.length ∧ st'.lay.gen.length = st.lay.gen.length := by
+  cases out <;> simp only [applyOut, Option.some.injEq] at h
+  · cases h
+  · subst h; exact ⟨rfl, List.length_set⟩
+  · subst h; exact ⟨rfl, rfl⟩
+  · subst h; exact ⟨List.length_set, List.length_set⟩
+
+theorem wsdLoop_length {c : Cls} {g : Seg} {ss : BitVec 64} (l : List (BitVec 16)) {st st' : WsdSt}
+    (h : wsdLoop c g ss l st = .ok (some st')) : st'.lay.secs.length = st.lay.secs.length :=
+  ((wsdLoop_frame l h).1).1
+
+theorem set_eq_self_of_getElem? {α} {l : List α} {i : Nat} {x : α} (h : l[i]? = some x) : l.set i x = l := by
+  apply List.ext_getElem?
+  intro j
+  rw [List.getElem?_set]
+  split
+  · rename_i e; subst e
+    split
+    · exact h.symm
+    · rename_i hlt; rw [List.getElem?_eq_none (by omega)] at h; cases h
+  · rfl
+
+/-- **one member, in step** -/
+theorem wsdStep_resave {g g' : Seg} {ss : BitVec 64} {F : List SecBuf} {st1 st1' st2 st2' : WsdSt} {idx : BitVec 16}
+    (hv : g'.vaddr = g.vaddr) (ht : g'.stype = g.stype)
+    (h1 : wsdStep .c64 g ss st1 idx = .ok (some st1')) (hF : Fut F st1') (hok : StepOk st1 idx)
+    (hl : Lock F st1 st2) (h2 : wsdStep .c64 g' ss st2 idx = .ok (some st2')) : Lock F st1' st2' := by
+  obtain ⟨sec1, gen1, hs1, hg1, ha1⟩ := wsdStep_ok h1
+  obtain ⟨sec2, gen2, hs2, hg2, ha2⟩ := wsdStep_ok h2
+  rw [hl.secs] at hs2
+  rw [hl.gen, hg1] at hg2
+  simp only [Option.some.injEq] at hg2
+  subst hg2
+  rw [hl.pos, hl.mem, hl.file, stepCore_congr_seg hv ht] at ha2
+  obtain ⟨len1, _⟩ := applyOut_length ha1
+  have hi : idx.toNat < st1.lay.secs.length := by
+    rcases Nat.lt_or_ge idx.toNat st1.lay.secs.length with h | h
+    · exact h
+    · rw [List.getElem?_eq_none h] at hs1; cases hs1
+  have hgi : idx.toNat < st1.lay.gen.length := by
+    rcases Nat.lt_or_ge idx.toNat st1.lay.gen.length with h | h
+    · exact h
+    · rw [List.getElem?_eq_none h] at hg1; cases hg1
+  cases gen1 with
+  | true =>
+    -- already generated: the section has its final form, the outcome is identical
+    have hgen' := (wsdStep_stable h1 idx.toNat hg1)
+    have : F[idx.toNat]? = st1.lay.secs[idx.toNat]? := by rw [hF.2 _ hgen'.2, hgen'.1]
+    rw [this, hs1] at hs2
+    simp only [Option.some.injEq] at hs2
+    subst hs2
+    cases ho : stepCore .c64 g ss sec1 true st1.lay.pos st1.mem st1.file with
+    | abort => rw [ho] at ha1; cases ha1
+    | null =>
+      rw [ho] at ha1 ha2; simp only [applyOut, Option.some.injEq] at ha1 ha2; subst ha1; subst ha2
+      exact ⟨hl.secs, hl.pos, by simp only; rw [hl.gen], hl.mem, hl.file⟩
+    | counted m f =>
+      rw [ho] at ha1 ha2; simp only [applyOut, Option.some.injEq] at ha1 ha2; subst ha1; subst ha2
+      exact ⟨hl.secs, hl.pos, hl.gen, rfl, rfl⟩
+    | placed s p m f => exact absurd ho (stepCore_true_not_placed _ _ _ _ _ _ _ _ _ _ _)
+  | false =>
+    cases ho : stepCore .c64 g ss sec1 false st1.lay.pos st1.mem st1.file with
+    | abort => rw [ho] at ha1; cases ha1
+    | counted m f => exact absurd ho (stepCore_false_not_counted _ _ _ _ _ _ _ _ _)
+    | null =>
+      rw [ho] at ha1; simp only [applyOut, Option.some.injEq] at ha1; subst ha1
+      -- the section is final already
+      have hgen' : (st1.lay.gen.set idx.toNat true)[idx.toNat]? = some true := List.getElem?_set_self hgi
+      have : F[idx.toNat]? = some sec1 := by rw [hF.2 _ hgen']; exact hs1
+      rw [this] at hs2
+      simp only [Option.some.injEq] at hs2
+      subst hs2
+      rw [ho] at ha2; simp only [applyOut, Option.some.injEq] at ha2; subst ha2
+      exact ⟨hl.secs, hl.pos, by simp only; rw [hl.gen], hl.mem, hl.file⟩
+    | placed s p m f =>
+      rw [ho] at ha1; simp only [applyOut, Option.some.injEq] at ha1; subst ha1
+      have hgen' : (st1.lay.gen.set idx.toNat true)[idx.toNat]? = some true := List.getElem?_set_self hgi
+      have hFi : F[idx.toNat]? = some s := by
+        rw [hF.2 _ hgen']; exact List.getElem?_set_self hi
+      rw [hFi] at hs2
+      simp only [Option.some.injEq] at hs2
+      subst hs2
+      rcases stepCore_resave ho (hok sec1 hs1 hg1) with h' | h'
+      · rw [h'] at ha2; simp only [applyOut, Option.some.injEq] at ha2; subst ha2
+        refine ⟨?_, rfl, by simp only; rw [hl.gen], rfl, rfl⟩
+        simp only
+        rw [hl.secs]
+        exact set_eq_self_of_getElem? hFi
+      · rw [h'] at ha2; cases ha2
+
+theorem Fut.back {c : Cls} {g : Seg} {ss : BitVec 64} {F : List SecBuf} (l : List (BitVec 16)) {st stE : WsdSt}
+    (h : wsdLoop c g ss l st = .ok (some stE)) (hF : Fut F stE) : Fut F st := by
+  refine ⟨hF.1.trans (wsdLoop_length l h), fun i hi => ?_⟩
+  obtain ⟨a, b⟩ := wsdLoop_stable l h i hi
+  rw [hF.2 i b, a]
+
+/-- **all members of a segment, in step** -/
+theorem wsdLoop_resave {g g' : Seg} {ss : BitVec 64} {F : List SecBuf} (hv : g'.vaddr = g.vaddr)
+    (ht : g'.stype = g.stype) (l : List (BitVec 16)) {st1 stE st2 st2E : WsdSt}
+    (h1 : wsdLoop .c64 g ss l st1 = .ok (some stE)) (hF : Fut F stE) (hok : LoopOk .c64 g ss l st1)
+    (hl : Lock F st1 st2) (h2 : wsdLoop .c64 g' ss l st2 = .ok (some st2E)) : Lock F stE st2E := by
+  induction l generalizing st1 st2 with
+  | nil =>
+    simp only [wsdLoop, pure, Except.pure, Except.ok.injEq, Option.some.injEq] at h1 h2
+    subst h1; subst h2; exact hl
+  | cons idx rest ih =>
+    simp only [wsdLoop, bind, Except.bind] at h1 h2
+    cases e1 : wsdStep .c64 g ss st1 idx with
+    | error x => rw [e1] at h1; cases h1
+    | ok r1 =>
+      rw [e1] at h1
+      cases r1 with
+      | none => cases h1
+      | some st1' =>
+        cases e2 : wsdStep .c64 g' ss st2 idx with
+        | error x => rw [e2] at h2; cases h2
+        | ok r2 =>
+          rw [e2] at h2
+          cases r2 with
+          | none => cases h2
+          | some st2' =>
+            simp only at h1 h2
+            have hF' : Fut F st1' := Fut.back rest h1 hF
+            have hl' := wsdStep_resave hv ht e1 hF' hok.1 hl e2
+            exact ih h1 (hok.2 st1' e1) hl' h2
+
+/-- layouts in step -/
+structure LockL (F : List SecBuf) (l1 l2 : Layout) : Prop where
+  secs : l2.secs = F
+  pos : l2.pos = l1.pos
+  gen : l2.gen = l1.gen
+
+def FutL (F : List SecBuf) (lay : Layout) : Prop :=
+  F.length = lay.secs.length ∧ ∀ (i : Nat), lay.gen[i]? = some true → F[i]? = lay.secs[i]?
+
+theorem segStartOf_resave {F : List SecBuf} {phoff : BitVec 64} {pe pn : BitVec 16} {lay1 lay2 : Layout} {g d : Seg}
+    {p1 : Layout × BitVec 64 × BitVec 64 × BitVec 64}
+    (hl : LockL F lay1 lay2) (hF : FutL F lay1) (h1 : segStartOf phoff pe pn lay1 g = .ok p1)
+    (dt : d.stype = g.stype) (dsecs : d.secs = g.secs) (dal : d.align = g.align) (dv : d.vaddr = g.vaddr)
+    (dset : d.offsetSet = true) (doff : d.offset = p1.2.1)
+    (hnz : lseg_is_phdr g.stype (BitVec.ofNat 16 g.secs.length) = false → lseg_offset0 g.offsetSet g.offset = false →
+      p1.2.1 ≠ 0) :
+    ∃ p2, segStartOf phoff pe pn lay2 d = .ok p2 ∧ p2.2 = p1.2 ∧ LockL F p1.1 p2.1 := by
+  unfold segStartOf at h1 ⊢
+  rw [dt, dsecs, dal, dv, dset, doff, hl.gen, hl.pos, hl.secs]
+  have hoff0 : ∀ x : BitVec 64, lseg_offset0 true x = (x == 0) := by
+    intro x; simp [lseg_offset0]
+  cases hh : g.secs.head? with
+  | none =>
+    rw [hh] at h1
+    simp only [pure_bind] at h1 ⊢
+    by_cases c1 : lseg_is_phdr g.stype (BitVec.ofNat 16 g.secs.length) = true
+    · simp only [c1, if_true, if_false, Bool.false_eq_true] at h1 ⊢
+      simp only [pure, Except.pure, Except.ok.injEq] at h1; subst h1
+      exact ⟨_, rfl, rfl, hl⟩
+    · simp only [c1, if_false, Bool.false_eq_true] at h1 ⊢
+      by_cases c2 : lseg_offset0 g.offsetSet g.offset = true
+      · simp only [c2, if_true, if_false, Bool.false_eq_true] at h1
+        simp only [pure, Except.pure, Except.ok.injEq] at h1; subst h1
+        simp only [hoff0, beq_self_eq_true, if_true]
+        exact ⟨_, rfl, rfl, hl⟩
+      · have hne := hnz (by simpa using c1) (by simpa using c2)
+        have c2' : lseg_offset0 true p1.2.1 = false := by
+          rw [hoff0]; simpa using hne
+        simp only [c2, if_false, Bool.false_eq_true] at h1
+        rw [c2']
+        simp only [Bool.false_eq_true, if_false]
+        by_cases c3 : (decide (g.secs.length > 0) && !false) = true
+        · simp only [c3, if_true, if_false, Bool.false_eq_true] at h1 ⊢
+          simp only [pure, Except.pure, Except.ok.injEq] at h1; subst h1
+          exact ⟨_, rfl, rfl, ⟨rfl, rfl, rfl⟩⟩
+        · simp only [c3, if_false, Bool.false_eq_true] at h1 ⊢
+          by_cases c4 : g.secs.length > 0
+          · simp only [c4, if_true, if_false, Bool.false_eq_true] at h1 ⊢
+            simp only [pure, Except.pure, Except.ok.injEq] at h1; subst h1
+            exact ⟨_, rfl, rfl, hl⟩
+          · simp only [c4, if_false, Bool.false_eq_true] at h1 ⊢
+            simp only [pure, Except.pure, Except.ok.injEq] at h1; subst h1
+            exact ⟨_, rfl, rfl, hl⟩
+  | some f =>
+    rw [hh] at h1
+    simp only at h1 ⊢
+    cases hg : lay1.gen[f.toNat]? with
+    | none => rw [hg] at h1; cases h1
+    | some b =>
+      rw [hg] at h1
+      simp only [pure_bind] at h1 ⊢
+      by_cases c1 : lseg_is_phdr g.stype (BitVec.ofNat 16 g.secs.length) = true
+      · simp only [c1, if_true, if_false, Bool.false_eq_true] at h1 ⊢
+        simp only [pure, Except.pure, Except.ok.injEq] at h1; subst h1
+        exact ⟨_, rfl, rfl, hl⟩
+      · simp only [c1, if_false, Bool.false_eq_true] at h1 ⊢
+        by_cases c2 : lseg_offset0 g.offsetSet g.offset = true
+        · simp only [c2, if_true, if_false, Bool.false_eq_true] at h1
+          simp only [pure, Except.pure, Except.ok.injEq] at h1; subst h1
+          simp only [hoff0, beq_self_eq_true, if_true]
+          exact ⟨_, rfl, rfl, hl⟩
+        · have hne := hnz (by simpa using c1) (by simpa using c2)
+          have c2' : lseg_offset0 true p1.2.1 = false := by
+            rw [hoff0]; simpa using hne
+          simp only [c2, if_false, Bool.false_eq_true] at h1
+          rw [c2']
+          simp only [Bool.false_eq_true, if_false]
+          by_cases c3 : (decide (g.secs.length > 0) && !b) = true
+          · simp only [c3, if_true, if_false, Bool.false_eq_true] at h1 ⊢
+            simp only [pure, Except.pure, Except.ok.injEq] at h1; subst h1
+            exact ⟨_, rfl, rfl, ⟨rfl, rfl, rfl⟩⟩
+          · simp only [c3, if_false, Bool.false_eq_true] at h1 ⊢
+            by_cases c4 : g.secs.length > 0
+            · simp only [c4, if_true, if_false, Bool.false_eq_true] at h1 ⊢
+              -- the first member is generated: its offset is final
+              have hb : b = true := by
+                simp only [c4, decide_true, Bool.true_and, Bool.not_eq_true', Bool.not_eq_false] at c3
+                simpa using c3
+              subst hb
+              have hFf : F[f.toNat]? = lay1.secs[f.toNat]? := hF.2 _ hg
+              rw [hFf]
+              cases hs : lay1.secs[f.toNat]? with
+              | none => rw [hs] at h1; cases h1
+              | some s0 =>
+                rw [hs] at h1
+                simp only [pure, Except.pure, Except.ok.injEq] at h1; subst h1
+                exact ⟨_, rfl, rfl, hl⟩
+            · simp only [c4, if_false, Bool.false_eq_true] at h1 ⊢
+              simp only [pure, Except.pure, Except.ok.injEq] at h1; subst h1
+              exact ⟨_, rfl, rfl, hl⟩
+
+theorem segFinish_fields (c : Cls) (g : Seg) (ss : BitVec 64) (st : WsdSt) :
+    (segFinish c g ss st).stype = g.stype ∧ (segFinish c g ss st).secs = g.secs ∧
+    (segFinish c g ss st).align = g.align ∧ (segFinish c g ss st).vaddr = g.vaddr ∧
+    (segFinish c g ss st).offsetSet = true ∧ (segFinish c g ss st).offset = truncA c ss ∧
+    (segFinish c g ss st).index = g.index := by
+  refine ⟨?_, ?_, ?_, ?_, ?_, ?_, ?_⟩ <;>
+    (by_cases h : lseg_memsz_lt g.memsz st.mem = true <;> simp [segFinish, h])
+
+theorem segFinish_idem (g : Seg) (ss : BitVec 64) (st st' : WsdSt) (hm : st'.mem = st.mem) (hf : st'.file = st.file) :
+    segFinish .c64 (segFinish .c64 g ss st) ss st' = segFinish .c64 g ss st := by
+  unfold segFinish
+  simp only [hm, hf, truncA]
+  by_cases h : lseg_memsz_lt g.memsz st.mem = true
+  · simp only [h, if_true]
+    have : lseg_memsz_lt st.mem st.mem = false := by simp [lseg_memsz_lt, BitVec.ult]
+    simp only [this, Bool.false_eq_true, if_false]
+  · simp only [h, if_false, Bool.false_eq_true]
+
+/-- the side conditions of one segment: its start is not 0 (unless it was at offset 0 already), and
+    no member meets the F13 trigger -/
+def SegOk (phoff : BitVec 64) (pe pn : BitVec 16) (lay : Layout) (g : Seg) : Prop :=
+  ∀ p, segStartOf phoff pe pn lay g = .ok p →
+    (lseg_offset0 g.offsetSet g.offset = false → p.2.1 ≠ 0) ∧
+    LoopOk .c64 g p.2.1 g.secs { lay := p.1, mem := p.2.2.1, file := p.2.2.2 }
+
+/-- **one segment, in step**: laying out the finished segment `d` again, on the final sections,
+    from the same cursor, reproduces `d` and the same cursor -/
+theorem layoutSegment_resave {F : List SecBuf} {phoff : BitVec 64} {pe pn : BitVec 16}
+    {lay1 lay1E lay2 lay2E : Layout} {g d d2 : Seg}
+    (h1 : layoutSegment .c64 phoff pe pn lay1 g = .ok (some (lay1E, d))) (hF : FutL F lay1E)
+    (hok : SegOk phoff pe pn lay1 g) (hl : LockL F lay1 lay2)
+    (h2 : layoutSegment .c64 phoff pe pn lay2 d = .ok (some (lay2E, d2))) :
+    LockL F lay1E lay2E ∧ d2 = d := by
+  obtain ⟨p1, stE, s1, w1, rfl, rfl⟩ := layoutSegment_ok h1
+  obtain ⟨p2', st2E, s2, w2, rfl, rfl⟩ := layoutSegment_ok h2
+  obtain ⟨f1, f2, f3, f4, f5, f6, _⟩ := segFinish_fields .c64 g p1.2.1 stE
+  obtain ⟨e1, e2⟩ := segStartOf_secs s1
+  -- the entry layout: generated sections are final
+  have hFst : Fut F { lay := p1.1, mem := p1.2.2.1, file := p1.2.2.2 } := Fut.back g.secs w1 hF
+  have hF1 : FutL F lay1 := by
+    obtain ⟨a, b⟩ := hFst
+    simp only [e1, e2] at a b
+    exact ⟨a, b⟩
+  obtain ⟨hnz, hloop⟩ := hok p1 s1
+  obtain ⟨p2, s2', ep, lk⟩ := segStartOf_resave hl hF1 s1 f1 f2 f3 f4 f5 f6 (fun _ h => hnz h)
+  rw [s2'] at s2
+  simp only [Except.ok.injEq] at s2
+  subst s2
+  have hss : p2.2.1 = p1.2.1 := by rw [ep]
+  have hm : p2.2.2.1 = p1.2.2.1 := by rw [ep]
+  have hf : p2.2.2.2 = p1.2.2.2 := by rw [ep]
+  rw [f2, hss, hm, hf] at w2
+  have hlock := wsdLoop_resave (g := g) (g' := segFinish .c64 g p1.2.1 stE) f4 f1 g.secs w1 hF hloop
+    (st2 := { lay := p2.1, mem := p1.2.2.1, file := p1.2.2.2 }) ⟨lk.secs, lk.pos, lk.gen, rfl, rfl⟩ w2
+  refine ⟨⟨hlock.secs, hlock.pos, hlock.gen⟩, ?_⟩
+  rw [hss]
+  exact segFinish_idem g p1.2.1 stE st2E hlock.mem hlock.file
+
+theorem layoutSegment_stable {c : Cls} {phoff : BitVec 64} {pe pn : BitVec 16} {lay lay' : Layout} {g g' : Seg}
+    (h : layoutSegment c phoff pe pn lay g = .ok (some (lay', g'))) (i : Nat) (hg : lay.gen[i]? = some true) :
+    lay'.secs[i]? = lay.secs[i]? ∧ lay'.gen[i]? = some true := by
+  obtain ⟨p, st, s1, w1, rfl, rfl⟩ := layoutSegment_ok h
+  obtain ⟨e1, e2⟩ := segStartOf_secs s1
+  have := wsdLoop_stable g.secs w1 i (by simp only [e2]; exact hg)
+  simp only [e1] at this
+  exact this
+
+theorem SegRun.stable {c : Cls} {e : Enc} {h0 : Bytes} {lay layE : Layout} {ordered ds : List Seg}
+    (run : SegRun c e h0 lay ordered layE ds) (i : Nat) (hg : lay.gen[i]? = some true) :
+    layE.secs[i]? = lay.secs[i]? ∧ layE.gen[i]? = some true := by
+  induction run with
+  | nil => exact ⟨rfl, hg⟩
+  | cons h1 _ ih =>
+    obtain ⟨a1, a2⟩ := layoutSegment_stable h1 i hg
+    obtain ⟨b1, b2⟩ := ih a2
+    exact ⟨b1.trans a1, b2⟩
+
+theorem FutL.back {c : Cls} {e : Enc} {h0 : Bytes} {F : List SecBuf} {lay layE : Layout} {ordered ds : List Seg}
+    (run : SegRun c e h0 lay ordered layE ds) (hF : FutL F layE) : FutL F lay := by
+  refine ⟨hF.1.trans run.frame.1.1, fun i hi => ?_⟩
+  obtain ⟨a, b⟩ := SegRun.stable run i hi
+  rw [hF.2 i b, a]
+
+/-- the side conditions along the whole segment loop -/
+def RunOk (e : Enc) (h0 : Bytes) : Layout → List Seg → Prop
+  | _, [] => True
+  | lay, g :: rest =>
+    SegOk (Hdr.e_phoff .c64 e h0) (Hdr.e_phentsize .c64 e h0) (Hdr.e_phnum .c64 e h0) lay g ∧
+    ∀ lay' d, layoutSegment .c64 (Hdr.e_phoff .c64 e h0) (Hdr.e_phentsize .c64 e h0) (Hdr.e_phnum .c64 e h0) lay g =
+      .ok (some (lay', d)) → RunOk e h0 lay' rest
+
+/-- **the whole segment loop, in step**: running it again over the finished segments, on the final
+    sections, from the initial cursor, reproduces the finished segments and the final cursor -/
+theorem segRun_resave {e : Enc} {h0 : Bytes} {F : List SecBuf} {lay1 lay1E lay2 lay2E : Layout}
+    {ordered ds acc done2 : List Seg}
+    (run : SegRun .c64 e h0 lay1 ordered lay1E ds) (hF : FutL F lay1E) (hok : RunOk e h0 lay1 ordered)
+    (hl : LockL F lay1 lay2)
+    (h2 : ds.foldlM (saveStep .c64 e h0) (some (lay2, acc)) = .ok (some (lay2E, done2))) :
+    LockL F lay1E lay2E ∧ done2 = acc ++ ds := by
+  induction run generalizing lay2 acc with
+  | nil lay =>
+    simp only [List.foldlM_nil, pure, Except.pure, Except.ok.injEq, Option.some.injEq, Prod.mk.injEq] at h2
+    obtain ⟨rfl, rfl⟩ := h2
+    exact ⟨hl, by simp⟩
+  | @cons layA layB layC g d rest ds' h1 run' ih =>
+    simp only [List.foldlM_cons, saveStep, bind, Except.bind] at h2
+    cases e2 : layoutSegment .c64 (Hdr.e_phoff .c64 e h0) (Hdr.e_phentsize .c64 e h0) (Hdr.e_phnum .c64 e h0) lay2 d with
+    | error x => rw [e2] at h2; cases h2
+    | ok r2 =>
+      rw [e2] at h2
+      cases r2 with
+      | none =>
+        simp only [pure, Except.pure] at h2
+        rw [saveFold_none] at h2; cases h2
+      | some p2 =>
+        obtain ⟨layB2, d2⟩ := p2
+        simp only [pure, Except.pure] at h2
+        have hFB : FutL F layB := FutL.back run' hF
+        obtain ⟨lk, ed⟩ := layoutSegment_resave h1 hFB hok.1 hl e2
+        subst ed
+        obtain ⟨lkE, edone⟩ := ih hF (hok.2 _ _ h1) lk h2
+        exact ⟨lkE, by rw [edone]; simp⟩
+
+/-- every finished segment is `segFinish` of its ordered segment, started somewhere -/
+theorem SegRun.finished {c : Cls} {e : Enc} {h0 : Bytes} {lay layE : Layout} {ordered ds : List Seg}
+    (run : SegRun c e h0 lay ordered layE ds) :
+    All2 (fun g d => ∃ ss st, d = segFinish c g ss st) ordered ds := by
+  induction run with
+  | nil => exact All2.nil
+  | cons h1 _ ih =>
+    obtain ⟨p, st, _, _, _, ed⟩ := layoutSegment_ok h1
+    exact All2.cons ⟨_, _, ed⟩ ih
+
+theorem applyOut_gen {st st' : WsdSt} {i : Nat} {out : StepOut} (h : applyOut st i out = some st') (j : Nat)
+    (hj : st'.lay.gen[j]? = some true) : st.lay.gen[j]? = some true ∨ j = i := by
+  cases out <;> simp only [applyOut, Option.some.injEq] at h
+  · cases h
+  · subst h
+    simp only at hj
+    by_cases e : i = j
+    · exact Or.inr e.symm
+    · rw [List.getElem?_set_ne e] at hj; exact Or.inl hj
+  · subst h; exact Or.inl hj
+  · subst h
+    simp only at hj
+    by_cases e : i = j
+    · exact Or.inr e.symm
+    · rw [List.getElem?_set_ne e] at hj; exact Or.inl hj
+
+theorem wsdLoop_gen {c : Cls} {g : Seg} {ss : BitVec 64} (l : List (BitVec 16)) {st st' : WsdSt}
+    (h : wsdLoop c g ss l st = .ok (some st')) (j : Nat) (hj : st'.lay.gen[j]? = some true) :
+    st.lay.gen[j]? = some true ∨ ∃ idx ∈ l, idx.toNat = j := by
+  induction l generalizing st with
+  | nil =>
+    simp only [wsdLoop, pure, Except.pure, Except.ok.injEq, Option.some.injEq] at h; subst h; exact Or.inl hj
+  | cons idx rest ih =>
+    simp only [wsdLoop, bind, Except.bind] at h
+    cases h1 : wsdStep c g ss st idx with
+    | error x => rw [h1] at h; cases h
+    | ok r =>
+      rw [h1] at h
+      cases r with
+      | none => cases h
+      | some st1 =>
+        rcases ih h with a | ⟨k, hk, e⟩
+        · obtain ⟨sec, gen, _, _, ha⟩ := wsdStep_ok h1
+          rcases applyOut_gen ha j a with b | b
+          · exact Or.inl b
+          · exact Or.inr ⟨idx, List.mem_cons_self, b.symm⟩
+        · exact Or.inr ⟨k, List.mem_cons_of_mem _ hk, e⟩
+
+theorem SegRun.gen_member {c : Cls} {e : Enc} {h0 : Bytes} {lay layE : Layout} {ordered ds : List Seg}
+    (run : SegRun c e h0 lay ordered layE ds) (j : Nat) (hj : layE.gen[j]? = some true) :
+    lay.gen[j]? = some true ∨ ∃ g ∈ ordered, ∃ idx ∈ g.secs, idx.toNat = j := by
+  induction run with
+  | nil => exact Or.inl hj
+  | @cons layA layB layC g d rest ds' h1 _ ih =>
+    rcases ih hj with a | ⟨g', hg', k, hk, e'⟩
+    · obtain ⟨p, st, s1, w1, rfl, _⟩ := layoutSegment_ok h1
+      obtain ⟨_, e2⟩ := segStartOf_secs s1
+      rcases wsdLoop_gen g.secs w1 j a with b | ⟨k, hk, e'⟩
+      · simp only [e2] at b; exact Or.inl b
+      · exact Or.inr ⟨g, List.mem_cons_self, k, hk, e'⟩
+    · exact Or.inr ⟨g', List.mem_cons_of_mem _ hg', k, hk, e'⟩
+
+/-- under the run's side conditions every finished segment starts at a non-zero offset -/
+theorem SegRun.nonzero {e : Enc} {h0 : Bytes} {lay layE : Layout} {ordered ds : List Seg}
+    (run : SegRun .c64 e h0 lay ordered layE ds) (hok : RunOk e h0 lay ordered) (hz : NoZeroOffset ordered) :
+    NoZeroOffset ds := by
+  induction run with
+  | nil => intro g hg; cases hg
+  | @cons layA layB layC g d rest ds' h1 _ ih =>
+    intro x hx
+    rcases List.mem_cons.1 hx with e' | e'
+    · subst e'
+      obtain ⟨p, st, s1, _, _, ed⟩ := layoutSegment_ok h1
+      obtain ⟨hnz, _⟩ := hok.1 p s1
+      have h0' : lseg_offset0 g.offsetSet g.offset = false := by
+        have := hz g List.mem_cons_self
+        simpa [lseg_offset0] using this
+      have hne : p.2.1 ≠ 0 := hnz h0'
+      obtain ⟨_, _, _, _, f5, f6, _⟩ := segFinish_fields .c64 g p.2.1 st
+      rw [ed, f5, f6]
+      simp only [truncA, Bool.true_and, beq_eq_false_iff_ne, ne_eq]
+      exact hne
+    · exact ih (hok.2 _ _ h1) (fun y hy => hz y (List.mem_cons_of_mem _ hy)) x e'
+
+theorem mapM_ok_self {α} {f : α → M α} {l : List α} (h : ∀ a ∈ l, f a = .ok a) : l.mapM f = .ok l := by
+  induction l with
+  | nil => rfl
+  | cons a rest ih =>
+    simp only [List.mapM_cons, h a List.mem_cons_self, ih (fun b hb => h b (List.mem_cons_of_mem _ hb)), bind,
+      Except.bind, pure, Except.pure]
+
+/-- `saveTail` reads of the object only class, byte order, translation and stream, of the segments
+    only what `putBack` makes of them, and of the layout only what the loose-section pass makes of it -/
+theorem saveTail_congr' {o o' : Obj} {os : OStream} {h0 : Bytes} {segs1 segs1' done done' : List Seg}
+    {lay lay' : Layout}
+    (hc : o'.cls = o.cls) (he : o'.enc = o.enc) (ht : o'.trans = o.trans) (hs : o'.stream = o.stream)
+    (hp : putBack segs1' done' = putBack segs1 done)
+    (hl : layoutLoose o.cls (putBack segs1 done) lay'.secs 0 lay'.pos [] =
+      layoutLoose o.cls (putBack segs1 done) lay.secs 0 lay.pos []) :
+    saveTail o' os h0 segs1' lay' done' = saveTail o os h0 segs1 lay done := by
+  unfold saveTail saveWrite
+  simp only [hc, he, ht, hs, hp, hl]
+
+theorem All2.imp {α β} {R S : α → β → Prop} {l : List α} {l' : List β} (h : All2 R l l')
+    (hrs : ∀ a b, R a b → S a b) : All2 S l l' := by
+  induction h with
+  | nil => exact All2.nil
+  | cons hr _ ih => exact All2.cons (hrs _ _ hr) ih
+
+/-- the side conditions of `save_twice`, evaluated along the layout of the first save: every
+    segment starts at a non-zero file offset, and no address-less NOBITS/empty member sits behind a
+    non-zero alignment gap (`NoGapBeforeAddresslessNobits` of DESIGN.md, `GapBeforeAddresslessNobits`
+    here) -/
+def ResaveOk (o : Obj) (hd : Bytes) : Prop :=
+  ∀ segs1 ordered, (preRes o).segs.mapM (calcSegAlign (preRes o).secs) = .ok segs1 →
+    orderedSegments segs1 = .ok ordered →
+    RunOk o.enc (saveHdr0 (preRes o) hd) (saveLay0 (preRes o) (saveHdr0 (preRes o) hd)) ordered
+
+/-- **save_twice** (ELF64; flat or nested segments, none at file offset 0): if `save` succeeds, and
+    the side conditions `ResaveOk` hold along its layout, then a second `save` of the resulting
+    object into the same initial stream — if it succeeds, which it does unless file offsets wrap
+    around 2^64 — returns *exactly the same result*: same object, same stream, identical bytes.
+    The address-driven branch of `write_segment_data` recomputes, for every member, the cursor
+    position the first pass recorded (`stepCore_resave`); the segment loop, the ordering, the
+    alignment pass, the loose-section pass and the header preparation are idempotent. -/
+theorem save_twice {o : Obj} {os : OStream} {r r2 : SaveRes} {hd : Bytes} (hc : o.cls = .c64)
+    (hh : o.hdr = some hd) (hl : ehdrSize o.cls ≤ hd.length) (hidx : SegIdxOk o.segs) (hz : NoZeroOffset o.segs)
+    (hrs : ResaveOk o hd) (hs : save o os = .ok r) (hok : r.ok = true)
+    (hs2 : save r.obj os = .ok r2) (hok2 : r2.ok = true) : r2 = r := by
+  obtain ⟨hd1, segs1, ordered, lay, done, e1, hf, h1, h2, h3, rfl⟩ := save_ok_unfold hs hok
+  rw [hh] at e1; cases e1
+  obtain ⟨_, eobj, _, _⟩ := saveTail_ok hok
+  generalize ho1 : preRes o = o1 at *
+  have hc1 : o1.cls = .c64 := by rw [← ho1]; exact hc
+  have hcls : o1.cls = o.cls := by rw [← ho1]; rfl
+  have henc : o1.enc = o.enc := by rw [← ho1]; rfl
+  have hsegs : o1.segs = o.segs := by rw [← ho1]; rfl
+  have hset1 : ∀ b ∈ o1.secs, b.Settled := by rw [← ho1]; exact preRes_settled o
+  generalize hh0 : saveHdr0 o1 hd = h0 at *
+  -- the first run
+  obtain ⟨ds, ed, run⟩ := saveFold_run ordered h3
+  simp only [List.nil_append] at ed
+  subst ed
+  rw [hc] at run h3
+  obtain ⟨fsec, _, fseg⟩ := run.frame
+  have hlay0secs : (saveLay0 o1 h0).secs = o1.secs := rfl
+  rw [hlay0secs] at fsec
+  have hsetlay : ∀ b ∈ lay.secs, b.Settled := fsec.forall_right (fun a b h ha => Placed.settled h ha) hset1
+  -- the loose pass of the first save
+  obtain ⟨L, eL, fL⟩ := layoutLoose_frame o1.cls (putBack segs1 done) lay.secs 0 lay.pos []
+  simp only [List.reverse_nil, List.nil_append] at eL
+  rw [hc1] at fL
+  have hsetL : ∀ b ∈ L, b.Settled := fL.forall_right (fun a b h ha => Placed.settled h ha) hsetlay
+  have eS : tailSecs o1 segs1 lay done = L := by
+    unfold tailSecs tailLoose
+    rw [eL, residentForSave_id _ _ _ _ _ hsetL]; rfl
+  have eSt : (residentForSave o1.cls o1.trans (tailLoose o1 segs1 lay done).1 { st := o1.stream } []).2.st = o1.stream := by
+    unfold tailLoose
+    rw [eL, residentForSave_id _ _ _ _ _ hsetL]
+  rw [eS, eSt] at eobj
+  generalize hT : saveTail o1 os h0 segs1 lay done = T at *
+  have ecls : T.obj.cls = o1.cls := by rw [eobj]
+  have eenc : T.obj.enc = o1.enc := by rw [eobj]
+  have etr : T.obj.trans = o1.trans := by rw [eobj]
+  have estr : T.obj.stream = o1.stream := by rw [eobj]
+  have esecs : T.obj.secs = L := by rw [eobj]
+  have esegs : T.obj.segs = putBack segs1 done := by rw [eobj]; rfl
+  have ehdr : T.obj.hdr = some (tailHdr o1 h0 segs1 lay done) := by rw [eobj]
+  have hLlen : L.length = o1.secs.length := fL.1.trans fsec.1
+  -- the second save
+  obtain ⟨hd2, segs2, ordered2, lay2, done2, e2, _, k1, k2, k3, rfl⟩ := save_ok_unfold hs2 hok2
+  rw [ehdr] at e2; cases e2
+  have hpre2 : preRes T.obj = T.obj := preRes_id _ (by rw [esecs]; exact hsetL)
+  rw [hpre2] at k1 k3 ⊢
+  have fa := mapM_ok_frame h1
+  -- header preparation
+  have eh : saveHdr0 T.obj (tailHdr o1 h0 segs1 lay done) = h0 := by
+    rw [saveHdr0_congr ecls eenc (by rw [esegs, putBack_eq_map, List.length_map, fa.1])
+      (by rw [esecs, hLlen])]
+    unfold tailHdr
+    rw [← hh0]
+    exact saveHdr0_idem o1 hd _ (by rw [hcls]; exact hl)
+  rw [eh] at k3 ⊢
+  -- A. the alignment pass is the identity on the finished segments
+  have hidx1 : SegIdxOk segs1 := by
+    intro k g hg
+    have hk : k < o1.segs.length := by
+      rw [← fa.1]
+      rcases Nat.lt_or_ge k segs1.length with hlt | hge
+      · exact hlt
+      · rw [List.getElem?_eq_none hge] at hg; cases hg
+    have := fa.2 k o1.segs[k] g (List.getElem?_eq_getElem hk) hg
+    rw [(calcSegAlign_frame (c := o1.cls) this).1.index]
+    exact hidx k _ (by rw [← hsegs]; exact List.getElem?_eq_getElem hk)
+  have hz1 : NoZeroOffset segs1 := by
+    intro g hg
+    obtain ⟨k, hk⟩ := List.getElem?_of_mem hg
+    have hk' : k < o1.segs.length := by
+      rw [← fa.1]
+      rcases Nat.lt_or_ge k segs1.length with hlt | hge
+      · exact hlt
+      · rw [List.getElem?_eq_none hge] at hk; cases hk
+    have := calcSegAlign_frame (c := o1.cls) (fa.2 k o1.segs[k] g (List.getElem?_eq_getElem hk') hk)
+    rw [this.2.1, this.2.2.2.2]
+    exact hz _ (by rw [← hsegs]; exact List.getElem_mem hk')
+  have hperm := orderedSegments_perm hz1 h2
+  have hpair1 : segs1.Pairwise (fun a b => a.index ≠ b.index) := by
+    rw [List.pairwise_iff_getElem]
+    intro i j hi hj hij e
+    have e1 := hidx1 i _ (List.getElem?_eq_getElem hi)
+    have e2 := hidx1 j _ (List.getElem?_eq_getElem hj)
+    omega
+  have hpairO : ordered.Pairwise (fun a b => a.index ≠ b.index) :=
+    (hperm.pairwise_iff (fun h e => h e.symm)).2 hpair1
+  have hfin := SegRun.finished run
+  have hfinIdx : All2 (fun g d => d.index = g.index) ordered done :=
+    All2.imp hfin (fun g d hr => by
+      obtain ⟨ss, st, e⟩ := hr
+      rw [e]; exact (segFinish_fields _ _ _ _).2.2.2.2.2.2)
+  have hmapO : ordered.map (backFn done) = done := map_backFn_eq hfinIdx hpairO
+  -- the finished version of a segment of `segs1` keeps member list and alignment
+  have hback : ∀ g ∈ segs1, (backFn done g).secs = g.secs ∧ (backFn done g).align = g.align := by
+    intro g hg
+    have hgo : g ∈ ordered := (hperm.mem_iff).2 hg
+    obtain ⟨k, hk⟩ := List.getElem?_of_mem hgo
+    have hk' : k < ordered.length := by
+      rcases Nat.lt_or_ge k ordered.length with hlt | hge
+      · exact hlt
+      · rw [List.getElem?_eq_none hge] at hk; cases hk
+    have hkd : k < done.length := by rw [(All2.getElem? hfin).1]; exact hk'
+    have e : backFn done g = done[k] := by
+      have := congrArg (fun l => l[k]?) hmapO
+      simp only [List.getElem?_map, hk, Option.map_some, List.getElem?_eq_getElem hkd, Option.some.injEq] at this
+      exact this
+    obtain ⟨ss, st, ef⟩ := (All2.getElem? hfin).2 k g _ hk (List.getElem?_eq_getElem hkd)
+    rw [e, ef]
+    exact ⟨(segFinish_fields _ _ _ _).2.1, (segFinish_fields _ _ _ _).2.2.1⟩
+  have eq1 : segs2 = putBack segs1 done := by
+    rw [esegs, esecs] at k1
+    have : (putBack segs1 done).mapM (calcSegAlign L) = .ok (putBack segs1 done) := by
+      apply mapM_ok_self
+      intro g2 hg2
+      rw [putBack_eq_map] at hg2
+      obtain ⟨g, hg, rfl⟩ := List.mem_map.1 hg2
+      obtain ⟨bs, ba⟩ := hback g hg
+      apply calcSegAlign_fix
+      intro idx hi
+      rw [bs] at hi
+      -- `g` came out of the alignment pass over `o1.secs`
+      obtain ⟨k, hk⟩ := List.getElem?_of_mem hg
+      have hk' : k < o1.segs.length := by
+        rw [← fa.1]
+        rcases Nat.lt_or_ge k segs1.length with hlt | hge
+        · exact hlt
+        · rw [List.getElem?_eq_none hge] at hk; cases hk
+      have hca := fa.2 k o1.segs[k] g (List.getElem?_eq_getElem hk') hk
+      have hsecs := (calcSegAlign_frame (c := o1.cls) hca).1.secs
+      obtain ⟨s, hs0, hle⟩ := calcSegAlign_ge hca idx (by rw [← hsecs]; exact hi)
+      -- the section's alignment is not changed by the placement
+      have hiL : idx.toNat < L.length := by
+        rw [hLlen]
+        rcases Nat.lt_or_ge idx.toNat o1.secs.length with hlt | hge
+        · exact hlt
+        · rw [List.getElem?_eq_none hge] at hs0; cases hs0
+      have hpl : Placed .c64 s L[idx.toNat] :=
+        (FrameL.trans (R := Placed .c64) (fun _ _ _ => Placed.trans) fsec fL).2 _ _ _ hs0
+          (List.getElem?_eq_getElem hiL)
+      refine ⟨L[idx.toNat], List.getElem?_eq_getElem hiL, ?_⟩
+      rw [ba, hpl.frame.rest]; exact hle
+    rw [this] at k1; cases k1; rfl
+  subst eq1
+  -- B. the order of the finished segments
+  have hz2 : NoZeroOffset (segs1.map (backFn done)) := by
+    have hnzd : NoZeroOffset done :=
+      SegRun.nonzero run (by
+        have := hrs segs1 ordered (by rw [ho1]; exact h1) h2
+        rw [ho1, hh0] at this; exact this) (fun g hg => hz1 g ((hperm.mem_iff).1 hg))
+    intro g2 hg2
+    obtain ⟨g, hg, rfl⟩ := List.mem_map.1 hg2
+    unfold backFn
+    cases hfd : done.find? (fun d => d.index == g.index) with
+    | none => exact hz1 g hg
+    | some d => exact hnzd d (List.mem_of_find?_eq_some hfd)
+  have eq2 : ordered2 = done := by
+    rw [putBack_eq_map] at k2
+    rw [orderedSegments_map (backFn done) (fun g hg => (hback g hg).1) hz1 hz2 h2, hmapO] at k2
+    cases k2; rfl
+  subst eq2
+  -- C. the segment loop, in step
+  rw [ecls, eenc, hc1, henc] at k3
+  have hlk0 : LockL L (saveLay0 o1 h0) (saveLay0 T.obj h0) := by
+    refine ⟨esecs, ?_, ?_⟩
+    · show savePos0 T.obj h0 = savePos0 o1 h0
+      unfold savePos0; rw [ecls, eenc]
+    · show List.replicate (T.obj.secs.length % 65536) false = List.replicate (o1.secs.length % 65536) false
+      rw [esecs, hLlen]
+  have hFL : FutL L lay := by
+    refine ⟨fL.1, fun i hi => ?_⟩
+    -- a generated index is a member of a finished segment
+    have hmem : withoutSegment (putBack segs1 ordered2) i = false := by
+      rcases SegRun.gen_member run i hi with h0g | ⟨g, hg, idx, hidxm, e⟩
+      · have : (List.replicate (o1.secs.length % 65536) false)[i]? = some true := h0g
+        rw [List.getElem?_replicate] at this
+        split at this <;> cases this
+      · have hg1 : g ∈ segs1 := (hperm.mem_iff).1 hg
+        unfold withoutSegment
+        simp only [Bool.not_eq_false', List.any_eq_true]
+        refine ⟨backFn ordered2 g, ?_, idx, by rw [(hback g hg1).1]; exact hidxm, by simpa using e⟩
+        rw [putBack_eq_map]; exact List.mem_map_of_mem hg1
+    have : L = (looseSpec o1.cls (putBack segs1 ordered2) lay.secs 0 lay.pos).1 := by
+      rw [← eL, layoutLoose_eq]; rfl
+    rw [this, looseSpec_getElem?_member _ _ _ 0 _ i (by rw [Nat.zero_add]; exact hmem)]
+  have hrun := segRun_resave run hFL (by
+      have := hrs segs1 ordered (by rw [ho1]; exact h1) h2
+      rw [ho1, hh0] at this; exact this) hlk0 k3
+  obtain ⟨lkE, edone⟩ := hrun
+  simp only [List.nil_append] at edone
+  subst edone
+  -- D. the tail
+  congr 1
+  refine (saveTail_congr' ecls eenc etr estr (putBack_idem segs1 done2) ?_).trans hT
+  rw [lkE.secs, lkE.pos, layoutLoose_eq, layoutLoose_eq]
+  have eL' : L = (looseSpec o1.cls (putBack segs1 done2) lay.secs 0 lay.pos).1 := by
+    rw [← eL, layoutLoose_eq]; rfl
+  rw [eL', looseSpec_idem]
+
+/-- the byte-level reading of `save_twice` -/
+theorem save_idempotent_on_settled {o : Obj} {os : OStream} {r r2 : SaveRes} {hd : Bytes} (hc : o.cls = .c64)
+    (hh : o.hdr = some hd) (hl : ehdrSize o.cls ≤ hd.length) (hidx : SegIdxOk o.segs) (hz : NoZeroOffset o.segs)
+    (hrs : ResaveOk o hd) (hs : save o os = .ok r) (hok : r.ok = true)
+    (hs2 : save r.obj os = .ok r2) (hok2 : r2.ok = true) :
+    r2.os.content = r.os.content ∧ r2.obj = r.obj := by
+  rw [save_twice hc hh hl hidx hz hrs hs hok hs2 hok2]; exact ⟨rfl, rfl⟩
+
+/-- sanity (by evaluation): the F13 object with the `.bss` member given an explicit address — so that
+    it is no longer an address-less NOBITS member behind a gap — saves twice to identical bytes -/
+def f13FixedObj : M Obj := do
+  let o ← f13Obj
+  pure (updSec o 3 fun b => { b with addr := 0x400010, addrSet := true })
+
+def sameTwice (mo : M Obj) : Bool :=
+  match mo with
+  | .error _ => false
+  | .ok o =>
+    match save o {} with
+    | .error _ => false
+    | .ok r1 =>
+      match save r1.obj {} with
+      | .error _ => false
+      | .ok r2 => r1.ok && r2.ok && (r1.os.content == r2.os.content)
+
+example : sameTwice f13FixedObj = true := by decide +kernel
+
+/-- **save_load_save**, stated (not proved): for an object `o2` that a loader reports for the bytes
+    of a successful save `r` (`Loaded`, C05) and whose member lists are those of the saved object
+    (`members_recomputed`), saving `o2` reproduces the bytes.  Reachable from `save_twice` once `save`
+    is shown to depend on sections only through the fields `Loaded` fixes (a congruence over all
+    passes, in the style of `saveFold_agree`). -/
+def SaveLoadSaveStatement : Prop :=
+  ∀ (o o2 : Obj) (os : OStream) (r r3 : SaveRes) (hd : Bytes),
+    o.cls = .c64 → o.hdr = some hd → ehdrSize o.cls ≤ hd.length → SegIdxOk o.segs → NoZeroOffset o.segs →
+    ResaveOk o hd → save o os = .ok r → r.ok = true →
+    -- `o2` is the reloaded object
+    o2.cls = r.obj.cls → o2.enc = r.obj.enc → o2.trans = [] → o2.hdr = r.obj.hdr →
+    C05.Loaded o2.cls o2.enc o2.secs o2.segs r.os.content →
+    -- members_recomputed
+    o2.segs.map (·.secs) = r.obj.segs.map (·.secs) →
+    save o2 os = .ok r3 → r3.ok = true → r3.os.content = r.os.content
+
 end ElfioVerif.C06
